@@ -421,8 +421,13 @@ class Lin:
         return not self.d
 
     # -- arithmetic
+    def _same(self, o):
+        if o.ctx is not self.ctx:
+            raise OutsideEncoding("a symbolic value of another exploration reached this one: the code under test keeps values across calls")
+
     def __add__(self, o):
         if isinstance(o, Lin):
+            self._same(o)
             d = dict(self.d)
             for i, x in o.d.items():
                 v = d.get(i, 0) + x
@@ -446,6 +451,7 @@ class Lin:
 
     def __sub__(self, o):
         if isinstance(o, Lin):
+            self._same(o)
             d = dict(self.d)
             for i, x in o.d.items():
                 v = d.get(i, 0) - x
